@@ -177,37 +177,47 @@ def _dispatch(jobs, nproc, budget, t0, verbose=False):
         return results, len(jobs) - len(results)
     ctx = mp.get_context('spawn')
     pool = ctx.Pool(nproc)
-    pending = []
     it = iter(jobs)
     submitted = 0
+    inflight = []  # (job, AsyncResult, t_submit)
+    exhausted = False
     try:
-        # keep 2*nproc jobs in flight so that the budget can stop the stream
-        def submit():
-            nonlocal submitted
-            try:
-                j = next(it)
-            except StopIteration:
-                return False
-            pending.append((j, pool.apply_async(_work, (j,))))
-            submitted += 1
-            return True
-        for _ in range(2 * nproc):
-            if not submit():
+        while True:
+            while not exhausted and len(inflight) < 3 * nproc and time.time() - t0 < budget:
+                try:
+                    j = next(it)
+                except StopIteration:
+                    exhausted = True
+                    break
+                inflight.append((j, pool.apply_async(_work, (j,)), time.time()))
+                submitted += 1
+            if not inflight:
                 break
-        while pending:
-            j, ar = pending.pop(0)
-            remaining = max(1.0, j[2] + 60)
-            try:
-                r = ar.get(timeout=remaining)
-            except mp.TimeoutError:
-                r = inconclusive('worker did not answer in time (hung in native code?)')
-                r['key'] = j[1]
-                r['wall_s'] = remaining
-            results.append(r)
-            if verbose:
-                print('  ', r['status'], repr(r['key'])[:150], round(r['wall_s'], 2), r.get('why', r.get('what', '')), flush=True)
-            if time.time() - t0 < budget:
-                submit()
+            still = []
+            progressed = False
+            for j, ar, ts in inflight:
+                if ar.ready():
+                    progressed = True
+                    try:
+                        r = ar.get()
+                    except Exception as ex:  # noqa: BLE001
+                        r = dict(status='error', why=f'worker failed: {type(ex).__name__}: {ex}', obligations=1,
+                                 discharged=0, nontrivial=False, solver_s=0.0, key=j[1], wall_s=0.0)
+                    results.append(r)
+                    if verbose:
+                        print('  ', r['status'], repr(r['key'])[:150], round(r['wall_s'], 2),
+                              r.get('why', r.get('what', '')), flush=True)
+                elif time.time() - ts > j[2] + 60 + 30 * 3:
+                    r = inconclusive('worker did not answer in time (hung in native code?)')
+                    r['key'] = j[1]
+                    r['wall_s'] = time.time() - ts
+                    results.append(r)
+                    progressed = True
+                else:
+                    still.append((j, ar, ts))
+            inflight = still
+            if not progressed:
+                time.sleep(0.02)
     finally:
         pool.terminate()
         pool.join()
@@ -320,6 +330,13 @@ def finish(mod, tier, seed, results, twin_res, not_reached, t0):
     os.makedirs(os.path.join(VERIF, 'evidence'), exist_ok=True)
     with open(os.path.join(VERIF, 'evidence', f'{prop}.json'), 'w') as f:
         json.dump(ev, f, indent=1)
+    try:
+        os.makedirs(os.path.join(VERIF, '.work'), exist_ok=True)
+        with open(os.path.join(VERIF, '.work', f'{prop}_{tier}.results.json'), 'w') as f:
+            json.dump([_jsonable({k: v for k, v in r.items() if k not in ('prims',)}) for r in results
+                       if r['status'] != 'ok'] , f, indent=0)
+    except Exception:  # noqa: BLE001
+        pass
     for l in lines:
         print(l)
     print(f'{prop} [{tier}] cases={evaluations} ok={len([r for r in results if r["status"] == "ok"])} '
